@@ -94,11 +94,12 @@ Definition hist_edges (xs : list Q) (nb : nat) : list Q :=
 Inductive errv := EExact (e : Q) | ESqrt (var : Q) | EUndef.   (* ESqrt v: the error is sqrt v *)
 Record rep := mkrep { r_value : option Q; r_error : errv }.
 
-Definition qsum (l : list Q) : Q := fold_right Qplus 0 l.
+(** sums are kept in lowest terms ([Qred]) so that the model can be executed on long sample lists *)
+Definition qsum (l : list Q) : Q := fold_right (fun x acc => Qred (x + acc)) 0 l.
 Definition qlen (l : list Q) : Q := inject_Z (Z.of_nat (length l)).
-Definition mean (l : list Q) : Q := qsum l / qlen l.
-Definition sumsq (l : list Q) : Q := let m := mean l in qsum (map (fun x => (x - m) * (x - m)) l).
-Definition svar (l : list Q) : Q := sumsq l / (qlen l - 1).       (* ddof = 1 *)
+Definition mean (l : list Q) : Q := Qred (qsum l / qlen l).
+Definition sumsq (l : list Q) : Q := let m := mean l in qsum (map (fun x => Qred ((x - m) * (x - m))) l).
+Definition svar (l : list Q) : Q := Qred (sumsq l / (qlen l - 1)).       (* ddof = 1 *)
 
 (** np.mean / np.std(ddof=1); empty input: nan (masked), one element: std undefined *)
 Definition mean_std (l : list Q) : rep :=
@@ -134,11 +135,11 @@ Fixpoint eval (e : expr) (x : list Q) : option Q :=
   match e with
   | Var i => Some (qnth x i)
   | Cst c => Some c
-  | Neg a => match eval a x with Some v => Some (- v) | None => None end
-  | Add a b => obind2 (eval a x) (eval b x) (fun u v => Some (u + v))
-  | Sub a b => obind2 (eval a x) (eval b x) (fun u v => Some (u - v))
-  | Mul a b => obind2 (eval a x) (eval b x) (fun u v => Some (u * v))
-  | Div a b => obind2 (eval a x) (eval b x) (fun u v => if Qeq_bool v 0 then None else Some (u / v))
+  | Neg a => match eval a x with Some v => Some (Qred (- v)) | None => None end
+  | Add a b => obind2 (eval a x) (eval b x) (fun u v => Some (Qred (u + v)))
+  | Sub a b => obind2 (eval a x) (eval b x) (fun u v => Some (Qred (u - v)))
+  | Mul a b => obind2 (eval a x) (eval b x) (fun u v => Some (Qred (u * v)))
+  | Div a b => obind2 (eval a x) (eval b x) (fun u v => if Qeq_bool v 0 then None else Some (Qred (u / v)))
   end.
 Fixpoint has_div (e : expr) : bool :=
   match e with
@@ -200,7 +201,7 @@ Definition chol (k : nat) (C : matrix) : cholres :=
 
 Fixpoint dot (a b : list Q) : Q :=
   match a, b with
-  | x :: a', y :: b' => x * y + dot a' b'
+  | x :: a', y :: b' => Qred (x * y + dot a' b')
   | _, _ => 0
   end.
 Definition matvec (L : matrix) (z : list Q) : list Q := map (fun row => dot row z) L.
@@ -221,7 +222,7 @@ Definition correlate (C : matrix) (k : nat) (cols : list (list Q)) : list (list 
 (** _generate_random_data_set: offsets * error + value  (the uncertainty, NOT the spread of the readings) *)
 Fixpoint scale_shift (srcs : list src) (o : list Q) : list Q :=
   match srcs, o with
-  | s :: srcs', x :: o' => (s_value s + s_error s * x) :: scale_shift srcs' o'
+  | s :: srcs', x :: o' => Qred (s_value s + s_error s * x) :: scale_shift srcs' o'
   | _, _ => []
   end.
 
